@@ -92,10 +92,34 @@ def gen_typed(rng, path):
         v = "(LArr [%s; LArr [%s; %s]; LArr [LBool %s; %s]])" % (a[0], o[0][0], o[1][0], "true" if b else "false", s[0])
         j = "[%s,[%s,%s],[%s,%s]]" % (a[1], o[0][1], o[1][1], "true" if b else "false", s[1])
         return t, v, j
+    if path == "inner/e":
+        n = rng.randrange(3)
+        return MODE_T, "(LTag %d%%N)" % n, json.dumps(MODES[n])
+    if path == "inner/st":
+        x = v_int(rng, "I16")
+        on = rng.random() < 0.5
+        name = v_str(rng, 6)
+        if rng.random() < 0.4:
+            k = ("(LOpt None)", "null")
+        else:
+            kv = v_int(rng, "U8")
+            k = ("(LOpt (Some %s))" % kv[0], kv[1])
+        m = rng.randrange(3)
+        t = "(TStruct [(%s, %s); (%s, TBool); (%s, TStr 6%%N); (%s, TStruct [(%s, TOpt %s); (%s, %s)])])" % (
+            cs("x"), t_int("I16"), cs("on"), cs("name"), cs("inner"), cs("k"), t_int("U8"), cs("m"), MODE_T)
+        v = "(LArr [%s; LBool %s; %s; LArr [%s; LTag %d%%N]])" % (x[0], "true" if on else "false", name[0], k[0], m)
+        j = '{"x":%s,"on":%s,"name":%s,"inner":{"k":%s,"m":"%s"}}' % (x[1], "true" if on else "false", name[1], k[1], MODES[m])
+        return t, v, j
     raise ValueError(path)
 
 
-MODELLED = list(INT) + ["b", "unit", "o8", "o32", "arr", "tup", "s8", "s32", "tag", "nested", "a/0", "a/1", "opt"]
+def cs(s):
+    return "[%s]" % "; ".join("%d%%N" % ord(ch) for ch in s)
+
+
+MODES = ["Off", "Slow", "Fast"]
+MODE_T = "(TEnum [%s])" % "; ".join("[%s]" % "; ".join("%d%%N" % ord(ch) for ch in m) for m in MODES)
+MODELLED = list(INT) + ["b", "unit", "o8", "o32", "arr", "tup", "s8", "s32", "tag", "nested", "a/0", "a/1", "opt", "inner/e", "inner/st"]
 
 
 def f32_text(rng):
@@ -123,16 +147,9 @@ def f64_text(rng):
 
 
 def gen_unmodelled(rng):
-    k = rng.random()
-    if k < 0.3:
+    if rng.random() < 0.5:
         return "inner/f", f32_text(rng)
-    if k < 0.6:
-        return "inner/g", f64_text(rng)
-    if k < 0.85:
-        name = v_str(rng, 6)[1]
-        kk = "null" if rng.random() < 0.4 else str(rng.randint(0, 255))
-        return "inner/st", '{"x":%d,"on":%s,"name":%s,"inner":{"k":%s,"m":"%s"}}' % (rng.randint(-32768, 32767), rng.choice(["true", "false"]), name, kk, rng.choice(["Off", "Slow", "Fast"]))
-    return "inner/e", '"%s"' % rng.choice(["Off", "Slow", "Fast"])
+    return "inner/g", f64_text(rng)
 
 
 def cases_for(rng, tier):
@@ -142,7 +159,7 @@ def cases_for(rng, tier):
         for _ in range(n):
             t, v, j = gen_typed(rng, p)
             cases.append(dict(path="/" + p, init=j, t=t, v=v))
-    for _ in range(n * 6):
+    for _ in range(n * 3):
         p, j = gen_unmodelled(rng)
         cases.append(dict(path="/" + p, init=j))
     return cases
@@ -229,7 +246,7 @@ def run(chk):
 def run_codec(chk):
     chk.cov["trusted_base"] = TRUSTED_COMMON + [
         "hand-written codec models coq/Ser.v (serde-json-core compact JSON; postcard varint / zigzag / length-prefixed strings), canonical encodings only",
-        "modelled, not verified: serde-json-core, postcard, heapless, the serde impls of core types; floats (ryu / float parsing), #[derive(Serialize, Deserialize)] structs and enums have no model and are decided on the implementation only (Stage C)",
+        "modelled, not verified: serde-json-core, postcard, heapless, the serde impls of core types and of #[derive(Serialize, Deserialize)] structs / unit-variant enums (declaration order, variant names / indices); floats (ryu / float parsing) have no model and are decided on the implementation only (Stage C)",
         "the tree-level theorems are generic in the codec (Tree.run's wr / rd); that the model of impls.rs / leaf.rs is faithful is the business of the C01/C02 correspondence"]
     chk.assumptions = ["strings contain no character that needs a JSON escape; no nested Option / Option<()> (serde_json_core reads Some(()) back as None)"]
     a = dict(ok=True, failures=chk.cov.get("stage_a_failures", []), theorems=chk.cov.get("pinned_theorems", []))
@@ -262,8 +279,8 @@ def run_codec(chk):
         chk.cov["disagreements"] = len(mism)
         chk.cov["samples"] = [dict(case=dict(path=cases[i]["path"], init=cases[i]["init"]), impl=canon(outs[i])) for i in (0, len(idx) // 2, len(idx) - 1)]
     chk.cov["samples"] = chk.cov.get("samples", []) + [dict(pinned_theorem=t) for t in a["theorems"][:9]]
-    chk.cov["rule"] = ("per leaf type (u8..i64, bool, unit, Option, array, tuple, String<8>/<32> incl. 2/3/4-byte UTF-8, string tag, nested tuple, array / Option of leaves; f32, f64 incl. subnormals, "
-                       "serde struct, serde enum): random and extreme values; for each: json::set, json::get into every buffer length 0..len+1, set back, trailing data; postcard get into every "
+    chk.cov["rule"] = ("per leaf type (u8..i64, bool, unit, Option, array, tuple, String<8>/<32> incl. 2/3/4-byte UTF-8, string tag, nested tuple, array / Option of leaves, "
+                       "nested serde struct, serde enum; f32, f64 incl. subnormals without model): random and extreme values; for each: json::set, json::get into every buffer length 0..len+1, set back, trailing data; postcard get into every "
                        "buffer length, set back with a 3-byte remainder, truncated input; counted: (leaf, value) cases; distinct = distinct (leaf, text); non-trivial = every case reads and writes a leaf by key")
     if found:
         c, o, why = min(found, key=lambda f: len(f[0]["init"]))
